@@ -84,6 +84,7 @@ def _alphabet() -> Dict[str, Dict[str, Any]]:
     op("reshape", "reshape", "{h}.reshape(B, S, 2, D // 2).reshape(B, S, D)", lambda h, m, i: ((h,), {}))
     op("view_t", "view_t", "{h}.transpose(0, 1).contiguous().transpose(0, 1)", lambda h, m, i: ((h,), {}))
     op("rotate_half", "rotate_half", "torch.cat([-{h}[..., D // 2:], {h}[..., : D // 2]], dim=-1)", lambda h, m, i: ((h,), {}))
+    op("cat_kw", "cat_kw", "torch.cat(tensors=[{h}.reshape(B, S, D), -{h}], dim=-1)[..., :D]", lambda h, m, i: ((h,), {}))
     op("stack_mean", "stack_mean", "torch.stack([{h}, {h} * 0.5], dim=0).sum(0)", lambda h, m, i: ((h,), {}))
     op("masked", "masked", "{h} * ({h} > 0).to({h}.dtype)", lambda h, m, i: ((h,), {}))
     op("cmp_two", "cmp_two", "{h} * ({h} > torch.tanh({h})).to({h}.dtype)", lambda h, m, i: ((h,), {}))
@@ -266,6 +267,7 @@ class Semantics:
             "reshape": lambda h: h.reshape(B, S, 2, D // 2).reshape(B, S, D),
             "view_t": lambda h: h.transpose(0, 1).contiguous().transpose(0, 1),
             "rotate_half": lambda h: torch.cat([-h[..., D // 2:], h[..., : D // 2]], dim=-1),
+            "cat_kw": lambda h: torch.cat(tensors=[h.reshape(B, S, D), -h], dim=-1)[..., :D],
             "stack_mean": lambda h: torch.stack([h, h * 0.5], dim=0).sum(0),
             "masked": lambda h: h * (h > 0).to(h.dtype),
             "cmp_two": lambda h: h * (h > torch.tanh(h)).to(h.dtype),
